@@ -1068,6 +1068,30 @@ func (w *World) isErrorReturn(r *ssa.Return) bool {
 			}
 		}
 		if types.Identical(v.Type(), types.Universe.Lookup("error").Type()) {
+			// an error exit helper: the error is the caller's, non-nil at every call site
+			if pr, isP := v.(*ssa.Parameter); isP {
+				h := r.Parent()
+				if (h.Object() == nil || !h.Object().Exported()) && !w.addressTaken(h) && w.nonNilDepth < 3 {
+					idx := -1
+					for i, q := range h.Params {
+						if q == pr {
+							idx = i
+						}
+					}
+					sites := w.allCallsTo(w.shortName(h))
+					all := idx >= 0 && len(sites) > 0
+					w.nonNilDepth++
+					for _, sc := range sites {
+						if idx >= len(sc.Common().Args) || !w.definitelyNonNil(sc.Common().Args[idx], sc.Block()) {
+							all = false
+						}
+					}
+					w.nonNilDepth--
+					if all {
+						return true
+					}
+				}
+			}
 			if w.definitelyNonNil(v, r.Block()) {
 				return true
 			}
@@ -1099,6 +1123,40 @@ func (w *World) definitelyNonNil(v ssa.Value, b *ssa.BasicBlock) bool {
 				}
 				w.nonNilDepth--
 				if all {
+					return true
+				}
+			}
+		}
+	case *ssa.Extract:
+		// the error result of an unexported helper that hands an error of its caller back unchanged (or
+		// builds one): non-nil when the argument is
+		if hc, isC := x.Tuple.(*ssa.Call); isC && w.nonNilDepth < 3 {
+			if h := hc.Common().StaticCallee(); h != nil && w.inPkg(h) && len(h.Blocks) > 0 && (h.Object() == nil || !h.Object().Exported()) {
+				w.nonNilDepth++
+				all, n := true, 0
+				for _, hb := range h.Blocks {
+					rt, isRet := hb.Instrs[len(hb.Instrs)-1].(*ssa.Return)
+					if !isRet || x.Index >= len(rt.Results) {
+						continue
+					}
+					n++
+					rv := rt.Results[x.Index]
+					if pr, isP := rv.(*ssa.Parameter); isP {
+						ok := false
+						for i, q := range h.Params {
+							if q == pr && i < len(hc.Common().Args) && w.definitelyNonNil(hc.Common().Args[i], b) {
+								ok = true
+							}
+						}
+						if !ok {
+							all = false
+						}
+					} else if !w.definitelyNonNil(rv, hb) {
+						all = false
+					}
+				}
+				w.nonNilDepth--
+				if all && n > 0 {
 					return true
 				}
 			}
@@ -1280,12 +1338,8 @@ func (w *World) underSystemTest(b *ssa.BasicBlock, depth int) bool {
 			if w.systemMaskTestEdge(t.Cond, p.Succs[0] == b) {
 				continue
 			}
-			c, ok := t.Cond.(*ssa.Call)
-			if !ok || p.Succs[0] != b {
-				return false
-			}
-			n := w.calleeName(c)
-			if n != "(Condition).SystemOverflow" && n != "(Condition).SystemUnderflow" {
+			_, _, tms, ok := w.systemTest(t.Cond)
+			if !ok || (p.Succs[0] == b) != tms || p.Succs[0] == p.Succs[1] {
 				return false
 			}
 		case *ssa.Jump:
@@ -1337,11 +1391,8 @@ func (w *World) systemTestedValues(b *ssa.BasicBlock, depth int) []ssa.Value {
 	for _, p := range b.Preds {
 		switch t := p.Instrs[len(p.Instrs)-1].(type) {
 		case *ssa.If:
-			if c, ok := t.Cond.(*ssa.Call); ok && len(c.Common().Args) > 0 {
-				n := w.calleeName(c)
-				if n == "(Condition).SystemOverflow" || n == "(Condition).SystemUnderflow" {
-					out = append(out, c.Common().Args[0])
-				}
+			if tv, _, tms, ok := w.systemTest(t.Cond); ok && (p.Succs[0] == b) == tms {
+				out = append(out, tv)
 			}
 		case *ssa.Jump:
 			out = append(out, w.systemTestedValues(p, depth+1)...)
@@ -1429,4 +1480,129 @@ func threadTarget(from, to *ssa.BasicBlock) *ssa.BasicBlock {
 		prev, to = to, next
 	}
 	return to
+}
+
+// systemTest recognises a test of the System* bits of a Condition, in any of its spellings: the methods
+// SystemOverflow()/SystemUnderflow(), a mask test x&K != 0 / == 0 with K within SystemOverflow|SystemUnderflow,
+// a negation, or an unexported predicate of the package whose single parameter (or receiver) is a Condition and
+// whose result is such a test of it (or the `||` of two). It returns the Condition value tested, the bits
+// (1 overflow, 2 underflow), and whether a true outcome means "one of these bits is set" (a false outcome then
+// means that all of them are clear).
+func (w *World) systemTest(cond ssa.Value) (ssa.Value, int, bool, bool) {
+	return w.systemTestDepth(cond, 0)
+}
+
+func (w *World) systemTestDepth(cond ssa.Value, depth int) (ssa.Value, int, bool, bool) {
+	if depth > 4 {
+		return nil, 0, false, false
+	}
+	switch c := cond.(type) {
+	case *ssa.UnOp:
+		if c.Op.String() == "!" {
+			if v, bits, tms, ok := w.systemTestDepth(c.X, depth+1); ok {
+				return v, bits, !tms, true
+			}
+		}
+	case *ssa.Call:
+		if len(c.Common().Args) == 0 {
+			return nil, 0, false, false
+		}
+		switch w.calleeName(c) {
+		case "(Condition).SystemOverflow":
+			return c.Common().Args[0], 1, true, true
+		case "(Condition).SystemUnderflow":
+			return c.Common().Args[0], 2, true, true
+		}
+		h := callee(c)
+		if h == nil || !w.inPkg(h) || len(h.Params) != 1 || len(c.Common().Args) != 1 || !typeIs(h.Params[0].Type(), apdPath, "Condition") ||
+			h.Signature.Results().Len() != 1 || h.Signature.Results().At(0).Type().String() != "bool" || len(h.Blocks) == 0 {
+			return nil, 0, false, false
+		}
+		// every return of h is a system test of its parameter (true = set), or the constant of a short-circuit
+		bits := 0
+		for _, b := range h.Blocks {
+			rt, isRet := b.Instrs[len(b.Instrs)-1].(*ssa.Return)
+			if !isRet {
+				continue
+			}
+			got, ok := w.predicateBits(h, rt.Results[0], depth+1)
+			if !ok {
+				return nil, 0, false, false
+			}
+			bits |= got
+		}
+		if bits == 0 {
+			return nil, 0, false, false
+		}
+		return c.Common().Args[0], bits, true, true
+	case *ssa.BinOp:
+		if c.Op != token.NEQ && c.Op != token.EQL {
+			return nil, 0, false, false
+		}
+		cc := w.conditionConsts()
+		so, su := cc["SystemOverflow"], cc["SystemUnderflow"]
+		for _, pair := range [][2]ssa.Value{{c.X, c.Y}, {c.Y, c.X}} {
+			and, ok := pair[0].(*ssa.BinOp)
+			zero, ok2 := pair[1].(*ssa.Const)
+			if !ok || !ok2 || and.Op != token.AND || zero.Value == nil || ci(zero) != 0 {
+				continue
+			}
+			for _, q := range [][2]ssa.Value{{and.X, and.Y}, {and.Y, and.X}} {
+				kb, isK := condBits(q[1])
+				if !isK || kb == 0 || kb&^(so|su) != 0 {
+					continue
+				}
+				bits := 0
+				if kb&so != 0 {
+					bits |= 1
+				}
+				if kb&su != 0 {
+					bits |= 2
+				}
+				return q[0], bits, c.Op == token.NEQ, true
+			}
+		}
+	}
+	return nil, 0, false, false
+}
+
+// predicateBits: v, a boolean computed inside predicate h, is true exactly when some of the returned System
+// bits of h's parameter are set: a system test of the parameter, or a `||` (φ of true and tests) of such.
+func (w *World) predicateBits(h *ssa.Function, v ssa.Value, depth int) (int, bool) {
+	if depth > 6 {
+		return 0, false
+	}
+	if phi, ok := v.(*ssa.Phi); ok {
+		bits := 0
+		for i, e := range phi.Edges {
+			if k, isK := e.(*ssa.Const); isK && k.Value != nil {
+				if k.Value.String() != "true" {
+					return 0, false
+				}
+				// a `true` edge of a || comes from a block whose own test was true
+				pred := phi.Block().Preds[i]
+				iff, isIf := pred.Instrs[len(pred.Instrs)-1].(*ssa.If)
+				if !isIf || pred.Succs[0] != phi.Block() {
+					return 0, false
+				}
+				got, ok := w.predicateBits(h, iff.Cond, depth+1)
+				if !ok {
+					return 0, false
+				}
+				bits |= got
+				continue
+			}
+			got, ok := w.predicateBits(h, e, depth+1)
+			if !ok {
+				return 0, false
+			}
+			bits |= got
+		}
+		return bits, bits != 0
+	}
+	tv, bits, tms, ok := w.systemTestDepth(v, depth+1)
+	if !ok || !tms || tv != ssa.Value(h.Params[0]) {
+		return 0, false
+	}
+	return bits, true
 }
